@@ -54,6 +54,10 @@ func shapeSig(msgs []string) string {
 
 func judgeScenario(r *core.Run, c *Case, out *sims.Outcome) {
 	r.Eval(1)
+	if out.Stuck {
+		r.Inconclusive("a call did not return within the watchdog (C09 / C17 decide that): " + c.Sc.Desc())
+		return
+	}
 	if out.Panic != nil {
 		r.Count("panicked", 1)
 		return
@@ -299,6 +303,10 @@ func execCase(r *core.Run, c *Case) {
 			e.Chain = broken
 			out := e.Run(context.Background())
 			r.Eval(1)
+			if out.Stuck {
+				r.Inconclusive("a call did not return within the watchdog (C09 / C17 decide that): " + c.Sc.Desc())
+				return
+			}
 			if out.Panic != nil {
 				r.Count("panicked", 1)
 				continue
